@@ -182,6 +182,26 @@ Definition dispatch_hash (c : mcfg) (op : tok) (args : list tok) : option (list 
         end
     | _ => Some bad
     end
+  else if is_sym op "fromstrm" then
+    (* from_str_with(&str, mode): the text parser on the string's bytes under the given prefix mode *)
+    match args with
+    | [vt; mt; TB bytes] =>
+        match variant_of vt, prefix_mode_of mt with
+        | Some v, Some m => Some (show_hash_res (parse hc v bytes m))
+        | _, _ => Some bad
+        end
+    | _ => Some bad
+    end
+  else if is_sym op "fmto" then
+    (* store_into_str_bytes into a buffer that starts `off` bytes into an aligned arena: the address does not matter *)
+    match args with
+    | [vt; TB bin; mt; TN _; TB buf] =>
+        match variant_of vt, prefix_mode_of mt with
+        | Some v, Some (Some p) => Some (with_hash c v bin (fun h => show_store (store_str hc v h p buf)))
+        | _, _ => Some bad
+        end
+    | _ => Some bad
+    end
   else if is_sym op "fromstr" then
     match args with
     | [vt; TB bytes] =>
@@ -369,6 +389,20 @@ Fixpoint run_hist (gc : gcfg) (v : variant) (fuel : nat) (ops : list tok) (stack
           match rest with
           | TN seed :: TN n :: rest' =>
               match @update unit gc v top (lcg_bytes (N.to_nat n) seed) with
+              | Ok s' => run_hist gc v fuel' rest' (s' :: below) acc
+              | Panic => acc ++ [[S "PANIC"]]
+              | UB => acc ++ [[S "UB"]]
+              | Err _ => acc ++ [bad]
+              end
+          | _ => acc ++ [bad]
+          end
+        else if is_sym op "urun" then
+          (* n bytes alternating b1, b2, as ONE slice (piece = 0) -- chunked feeding is decided on the implementation alone *)
+          match rest with
+          | TN b1 :: TN b2 :: TN n :: TN _ :: rest' =>
+              if 200000 <? n then acc ++ [[S "MODEL-SLICE-TOO-LARGE-TO-EVALUATE"]]
+              else
+              match @update unit gc v top (map (fun j => if N.even j then b1 else b2) (map N.of_nat (seq 0 (N.to_nat n)))) with
               | Ok s' => run_hist gc v fuel' rest' (s' :: below) acc
               | Panic => acc ++ [[S "PANIC"]]
               | UB => acc ++ [[S "UB"]]
